@@ -36,4 +36,6 @@ class EqValue(GenericValue):
         return self._file._value_to_code(self._new_value)
 
     def _get_changes(self) -> Iterator[Change]:
-        return iter(self._changes)
+        # there are no changes if the snapshot was only compared inside a
+        # compare_context (while a list which contains it was aligned)
+        return iter(getattr(self, "_changes", []))
